@@ -66,6 +66,10 @@ class Bus:
         if cmd.response is None:
             return None
         if fault is not None:
+            if fault.kind == "noobject":
+                # a driver that hands back None instead of a response object (the asyncio hasseb driver does, for a report
+                # with a status code it does not know)
+                return None
             if fault.kind == "silence":
                 answers = []
             elif fault.kind == "garble":
